@@ -14,11 +14,19 @@ FlagSets == SUBSET {"UP", "UV"}
 Counters == {"none", "zero", "one", "max"}
 IdLens == {0, 1, 16, 64, 255, 256, 1023, 65535}
 Exts == {"none", "mc-bool", "ga-bytes"}
+\* the extension setters called twice: the second call may replace, clear or leave the section - whichever it does,
+\* the ED bit must describe what is encoded
+SeqExts == {"mc-then-none", "ga-then-empty", "mc-then-ga", "none-then-mc"}
 EncCases ==
-    { [rp |-> r, ctr |-> c, flags |-> f, at |-> FALSE, idlen |-> 0, ext |-> e] :
+    { [rp |-> "ascii", ctr |-> c, flags |-> f, at |-> a, idlen |-> IF a THEN 16 ELSE 0, ext |-> e, key |-> "plain"] :
+        c \in {"none", "one"}, f \in FlagSets, a \in BOOLEAN, e \in SeqExts } \cup
+    \* EC2 keys that carry optional common parameters (key id, key operations, base IV)
+    { [rp |-> "ascii", ctr |-> "one", flags |-> f, at |-> TRUE, idlen |-> n, ext |-> e, key |-> k] :
+        f \in FlagSets, n \in {0, 16, 255}, e \in Exts, k \in {"kid", "ops", "iv"} } \cup
+    { [rp |-> r, ctr |-> c, flags |-> f, at |-> FALSE, idlen |-> 0, ext |-> e, key |-> "plain"] :
         \* the RP ID is hashed exactly as given: mixed case, raw Unicode, empty, trailing dot and long ids included
         r \in {"ascii", "idn", "upper", "unicode", "empty", "dot", "long"}, c \in Counters, f \in FlagSets, e \in Exts } \cup
-    { [rp |-> "ascii", ctr |-> c, flags |-> f, at |-> TRUE, idlen |-> n, ext |-> e] :
+    { [rp |-> "ascii", ctr |-> c, flags |-> f, at |-> TRUE, idlen |-> n, ext |-> e, key |-> "plain"] :
         c \in Counters, f \in FlagSets, n \in IdLens, e \in Exts }
 
 Bit(name) == CASE name = "UP" -> 1 [] name = "UV" -> 4 [] name = "BE" -> 8 [] name = "BS" -> 16 [] name = "AT" -> 64 [] name = "ED" -> 128
@@ -27,15 +35,17 @@ Sum(S) == IF S = {} THEN 0 ELSE LET x == CHOOSE x \in S : TRUE IN Bit(x) + Sum(S
 ToSet(s) == { s[i] : i \in 1..Len(s) }
 
 \* the flag byte a value built with new() + set_flags(f) [+ sections] must carry: BE and BS are set by the constructor
-ExpectedFlags(c) == Sum(ToSet(c.flags) \cup {"BE", "BS"} \cup (IF c.at THEN {"AT"} ELSE {}) \cup (IF c.ext # "none" THEN {"ED"} ELSE {}))
+ExpectedFlags(c, ed) == Sum(ToSet(c.flags) \cup {"BE", "BS"} \cup (IF c.at THEN {"AT"} ELSE {}) \cup (IF ed THEN {"ED"} ELSE {}))
 
 JudgeEnc(e) ==
     /\ ~e.crash /\ e.wf                                   \* every byte accounted for by the layout
-    /\ e.hashok /\ e.flagbyte = ExpectedFlags(e.case)
+    /\ e.hashok /\ e.flagbyte = ExpectedFlags(e.case, e.edpresent)     \* the ED bit iff an extension section is encoded
     /\ e.ctrok                                            \* big-endian counter, absent counter = 0
-    /\ e.atpresent = e.case.at /\ e.edpresent = (e.case.ext # "none")
+    /\ e.atpresent = e.case.at
+    /\ (e.case.ext \notin SeqExts => e.edpresent = (e.case.ext # "none"))
+    /\ (e.case.ext = "none-then-mc" => e.edpresent)
     /\ (e.case.at => e.aaguidok /\ e.idlen = e.case.idlen /\ e.idok /\ e.keyok)
-    /\ (e.case.ext # "none" => e.extok)
+    /\ (e.edpresent => e.extok)
     /\ e.total = 37 + (IF e.case.at THEN 18 + e.case.idlen + e.keylen ELSE 0) + e.extlen
     /\ e.rt = "equal"                                     \* from_slice(to_vec(v)) = v (absent counter reads back as zero)
 
